@@ -183,6 +183,37 @@ PROPS['C09'] = dict(
     assumptions=['Inv_ans / Inv_chain on symbolic pre-states'],
 )
 
+PROPS['C06'] = dict(
+    obligations=[
+        L('c06_ans_ref_k1', 'k_c06_ans_k1_{cfg}', ['u8_u16_p4', 'u8_u16_p8', 'u16_u32_p12', 'u32_u64_p24'], ['u8_u16_p4', 'u8_u16_p8', 'u8_u32_p8', 'u16_u32_p12', 'u16_u32_p16', 'u32_u64_p24', 'u32_u64_p32']),
+        L('c06_ans_ref_k2', 'k_c06_ans_k2_{cfg}', ['u8_u16_p4'], ['u8_u16_p4', 'u8_u16_p8', 'u16_u32_p12', 'u32_u64_p24'], cap=dict(quick=60, thorough=600)),
+        L('c06_ans_ref_k3', 'k_c06_ans_k3_{cfg}', [], ['u8_u16_p8'], cap=dict(quick=60, thorough=900)),
+        L('c06_range_ref_k1', 'k_c06_range_k1_{cfg}', ['u8_u16_p4', 'u8_u16_p8', 'u16_u32_p12', 'u32_u64_p24'], ['u8_u16_p4', 'u8_u16_p8', 'u8_u32_p8', 'u16_u32_p12', 'u16_u32_p16', 'u32_u64_p24', 'u32_u64_p32']),
+        L('c06_range_ref_k2', 'k_c06_range_k2_{cfg}', ['u8_u16_p4'], ['u8_u16_p4', 'u8_u16_p8', 'u16_u32_p12'], cap=dict(quick=60, thorough=600)),
+        L('c06_range_ref_k3', 'k_c06_range_k3_{cfg}', [], ['u8_u16_p8'], cap=dict(quick=60, thorough=900)),
+        L('c06_range_ref_state_k1', 'k_c06_range_state_k1_{cfg}', ['u8_u16_p4', 'u8_u16_p8', 'u16_u32_p12', 'u32_u64_p24'], fixes=range_fixes),
+        L('c06_range_ref_state_k2', 'k_c06_range_state_k2_{cfg}', [], ['u8_u16_p4', 'u8_u16_p8', 'u16_u32_p12'], cap=dict(quick=60, thorough=900)),
+    ],
+    bounds='differential against reference models (textbook rANS; exact wide-integer range coding with the documented sealing rule, no held-back-word bookkeeping): k <= 3 symbols '
+           'from the empty coder and from any invariant / Normal raw state, any (cum,p); u32/u64: k <= 2 (ANS), k = 1 (range; the wide integer is a u128)',
+    outside='messages longer than k symbols (covered only through the from-any-state one-step form); the byte-exact published example vectors are pinned by the repository\'s own '
+            'doc tests (tests/readme.rs, doc tests), which this check does not re-run',
+    assumptions=['reference models live in /verif/harness/src/kernels/refmodel.rs; they share no code with the implementation'],
+)
+
+PROPS['C12'] = dict(
+    obligations=[
+        L('c12_ans_step', 'k_c12_ans_{cfg}', ['u8_u16_p4', 'u8_u16_p8', 'u16_u32_p12', 'u32_u64_p24'], ['u8_u16_p4', 'u8_u16_p8', 'u8_u32_p8', 'u16_u32_p12', 'u16_u32_p16', 'u16_u64_p16', 'u32_u64_p24', 'u32_u64_p32'], fixes=cuts_fixes),
+        L('c12_range_step', 'k_c12_range_{cfg}', ['u8_u16_p4', 'u16_u32_p12', 'u32_u64_p24'], ['u8_u16_p4', 'u8_u16_p8', 'u8_u32_p8', 'u16_u32_p12', 'u16_u32_p16', 'u32_u64_p24', 'u32_u64_p32'], fixes=range_fixes, cap=dict(quick=60, thorough=300)),
+        L('c12_words_k1', 'k_c12_words_k1_{cfg}', ['u8_u16_p4', 'u16_u32_p12']),
+        L('c12_words_k2', 'k_c12_words_k2_{cfg}', ['u8_u16_p4'], ['u8_u16_p4', 'u8_u16_p8'], cap=dict(quick=60, thorough=600)),
+        L('c12_words_k3', 'k_c12_words_k3_{cfg}', [], ['u8_u16_p4'], cap=dict(quick=60, thorough=900)),
+    ],
+    bounds='per-symbol integer potential inequalities (no logarithms) from ANY invariant state, at each listed width; the stated bound itself in product form end to end for k <= 3 at the small widths',
+    outside='the telescoping of the per-step inequality to n symbols is ordinary algebra written in DESIGN.md (not machine-checked); floating-point evaluation of the bound',
+    assumptions=['Inv_ans / Inv_renc on symbolic pre-states'],
+)
+
 PROPS['C17'] = dict(
     obligations=[
         K('c17_cursor_script', 'c17', 'cursor_script_mut_slice', tq=900),
